@@ -30,7 +30,18 @@ non-trivial = has >= 1 data block; distinct = distinct (block subset, pointer or
         let permute = if i < 2048 { i % 2 == 1 } else { rng.chance(1, 2) };
         let big = rng.chance(1, 25);
         let spec = gen_msg31(&mut rng, subset, permute, big);
-        let body = spec.encode(&mut rng);
+        let mut body = spec.encode(&mut rng);
+        // The one-letter block type in front of the name ('R' / 'D') is a field like any other: it is
+        // the three-character *name* that designates the product.  One message in twelve carries one
+        // arbitrary type byte on every block (the same on all, so it is known what was written).
+        let patched_type: Option<u8> = if i % 12 == 7 && !spec.blocks.is_empty() { Some(*rng.pick(&[b'D', b'R', b'd', b'r', 0u8, 0xFF, b' ', b'X'])) } else { None };
+        if let Some(t) = patched_type {
+            for k in 0..spec.blocks.len() {
+                let p = u32::from_be_bytes([body[32 + 4 * k], body[33 + 4 * k], body[34 + 4 * k], body[35 + 4 * k]]) as usize;
+                body[p] = t;
+            }
+            obs.count("messages_with_an_arbitrary_block_type_byte", 1);
+        }
         if spec.blocks.is_empty() {
             obs.case_trivial();
         } else {
@@ -78,7 +89,16 @@ non-trivial = has >= 1 data block; distinct = distinct (block subset, pointer or
                 obs.violation(format!("well-formed message refused: {}", sig), detail.to_string(), replay);
             }
             Ok(m) => {
-                let diffs = cmp31::compare(&spec, &m);
+                let mut diffs = cmp31::compare(&spec, &m);
+                if let Some(t) = patched_type {
+                    // the comparer expects the standard letters: what must be found is the byte written
+                    let expected = format!("decoded {:?}", t);
+                    diffs.retain(|d| !(d.field.ends_with(".data_block_type") && d.detail.ends_with(&expected)));
+                    if [b'D', b'R'].contains(&t) {
+                        // the standard letter of the *other* family on some blocks: those that carry their
+                        // own letter produced no diff, the others were retained above; nothing else to do
+                    }
+                }
                 if diffs.is_empty() {
                     obs.count("messages_field_exact", 1);
                     obs.count("blocks_checked", spec.blocks.len() as u64);
